@@ -53,14 +53,19 @@ def check_forest(out, forest, model, origin):
 def paragraphs_kept_case(seed):
     """ignore_empty_paragraphs=False: each paragraph not dropped by `!` yields its block"""
     rng = random.Random(seed)
-    from gen_docx import el
+    from gen_docx import el, DocGen
+    neutral = DocGen(0)
+    neutral.rng = rng       # paragraph properties that say nothing about the text (w:sectPr of a section's last paragraph, w:keepNext, ...)
     styles = ["S%d" % i for i in range(4)]
     dropped = rng.choice(styles)
     paras, expect = [], []
     for _ in range(rng.randint(1, 7)):
         sid = rng.choice(styles)
-        kind = rng.choice(["none", "emptyrun", "emptytext", "boldempty", "text", "linkempty", "bookmark"])
+        kind = rng.choice(["none", "emptyrun", "emptytext", "boldempty", "text", "linkempty", "bookmark",
+                           "none", "linktext", "insempty", "instext", "sdtempty", "smartempty", "proofonly"])
         ch = [el("w:pPr", [], [el("w:pStyle", [("w:val", sid)])])]
+        while rng.random() < 0.35:
+            ch[0][2].insert(rng.randint(0, len(ch[0][2])), neutral.ppr_neutral())
         if kind == "emptyrun":
             ch.append(el("w:r"))
         elif kind == "emptytext":
@@ -73,7 +78,20 @@ def paragraphs_kept_case(seed):
             ch.append(el("w:hyperlink", [("w:anchor", "a")], [el("w:r")]))
         elif kind == "bookmark":
             ch.append(el("w:bookmarkStart", [("w:name", "b%d" % len(paras))]))
+        elif kind == "linktext":
+            ch.append(el("w:hyperlink", [("w:anchor", "a")], [el("w:r", [], [el("w:t", [], ["y"])])]))
+        elif kind in ("insempty", "instext"):
+            ch.append(el("w:ins", [("w:id", "1")], [el("w:r", [], [el("w:t", [], ["z"])] if kind == "instext" else [])]))
+        elif kind == "sdtempty":
+            ch.append(el("w:sdt", [], [el("w:sdtContent", [], [el("w:r")] if rng.random() < 0.5 else [])]))
+        elif kind == "smartempty":
+            ch.append(el("w:smartTag", [], [el("w:r")] if rng.random() < 0.5 else []))
+        elif kind == "proofonly":
+            ch.append(el("w:proofErr", [("w:type", "spellStart")]))
         paras.append(el("w:p", [], ch))
+        if rng.random() < 0.12:
+            # the same paragraph as the content of a table cell
+            paras[-1] = el("w:tbl", [], [el("w:tr", [], [el("w:tc", [], [paras[-1]])])])
         if sid != dropped:
             expect.append(sid)
     sm = "\n".join("p.%s => %s" % (s, "!" if s == dropped else "div.%s:fresh" % s) for s in styles)
@@ -118,7 +136,7 @@ def run(out, tier, seed, model_ok):
     for i in range(common.deepen(300 if tier == "quick" else 4000)):
         g, parts, opts = cases.api_case(seed * 1000003 + 700000 + i,
                                         dict(p_empty=0.45, p_break=0.35, style_map=0.8, p_table=0.25, p_image=0.05, p_checkbox=0.1, p_bookmark=0.15, bang=0.2,
-                                             max_inlines=4), sm=dict(hostile=0.05, junk=0.0))
+                                             max_inlines=4, p_ppr_neutral=0.25), sm=dict(hostile=0.05, junk=0.0))
         opts.pop("format", None)
         prng = random.Random(seed * 1000003 + 700000 + i)
         if prng.random() < 0.6:
